@@ -17,8 +17,9 @@ git -C $R reset -q 2>/dev/null
 LIST="$*"
 [ -n "$LIST" ] || LIST="C01 C02 C03 C04 C05 C06 C07 C08 C09 C10 C11 C12 C13 C14 C15 C16 C17 C18 C19 C20"
 mkdir -p /tmp/trymutant_ev$$
+cp bin/sunlint /tmp/trymutant_ev$$/sunlint
 for c in $LIST; do
-	out=$(. ./env.sh; bin/sunlint -repo $R -property $c -tier quick -evidence /tmp/trymutant_ev$$ 2>&1)
+	out=$(. ./env.sh; /tmp/trymutant_ev$$/sunlint -repo $R -property $c -tier quick -evidence /tmp/trymutant_ev$$ 2>&1)
 	if echo "$out" | grep -q "^VIOLATION"; then
 		echo "$c FAILS: $(echo "$out" | grep -E '^(VIOLATED|UNDECIDED)' | cut -c1-260 | head -3 | tr '\n' '|')"
 	fi
